@@ -237,7 +237,7 @@ class ObjView:
         if owner is None:
             raise AttributeError(f"{cls}.{attr} not in schema")
         _, m, ty = field_map(st, cls, attr)
-        return view(st, unpack(ty, m[z]))
+        return view(st, unpack(ty, z3.simplify(m[z])))
 
     def classid(self):
         return class_map(self.st)[self.z]
